@@ -283,12 +283,16 @@ func (g *gen) rawExpr(k kind, depth int, class string) string {
 				return "n1"
 			case c == 3:
 				g.feat("member")
-				return []string{"obj.N", "obj.Inner.Depth", `m1["n"]`, "xs[1]", "obj.Nums[0]"}[g.intn("path", 0, 4)]
+				if g.pct("idxcallee", 25) {
+					g.feat("index_callee")
+					return "(objs[" + g.maybeProbe(fmt.Sprint(g.intn("oi", 0, 1)), kInt, "index", false) + "].N)"
+				}
+				return []string{"obj.N", "obj.Inner.Depth", `m1["n"]`, "xs[1]", "obj.Nums[0]", "(objs[1].Inner.Depth)", `(om["x"].N)`}[g.intn("path", 0, 6)]
 			default:
 				return fmt.Sprint(g.intn("lit", 0, 12))
 			}
 		}
-		switch g.intn("intform", 0, 7) {
+		switch g.intn("intform", 0, 9) {
 		case 0, 1, 2:
 			op := []string{"+", "-", "*"}[g.intn("op", 0, 2)]
 			g.feat("infix_arith")
@@ -304,9 +308,27 @@ func (g *gen) rawExpr(k kind, depth int, class string) string {
 		case 6:
 			g.feat("index_access")
 			return g.maybeProbe(g.intArray(), kArr, "indexed-value", false) + "[" + g.maybeProbe(fmt.Sprint(g.intn("ix", 0, 2)), kInt, "index", false) + "]"
-		default:
+		case 7:
 			g.feat("method_call")
 			return "obj.Add(" + g.expr(kInt, depth-1, "method-arg") + ", " + g.expr(kInt, depth-1, "method-arg") + ")"
+		case 8:
+			// variadic helper: the failing call can sit in the fixed or the variadic part
+			g.feat("helper_variadic")
+			n := g.intn("nvar", 0, 3)
+			args := []string{g.expr(kInt, depth-1, "go-helper-arg")}
+			for i := 0; i < n; i++ {
+				args = append(args, g.expr(kInt, depth-1, "go-helper-variadic-arg"))
+			}
+			return "sum(" + strings.Join(args, ", ") + ")"
+		default:
+			// three positional arguments, then auto-filled options map and HelperContext
+			g.feat("helper_3args_autofill")
+			s := g.newSiteIf(pkOpts, "go-helper-call", kInt)
+			id := 0
+			if s != nil {
+				id = s.ID
+			}
+			return fmt.Sprintf("p3(%d, %s, %s, %s)", id, g.expr(kInt, depth-1, "go-helper-arg"), g.expr(kInt, depth-1, "go-helper-arg3"), g.expr(kInt, depth-1, "go-helper-arg3"))
 		}
 	case kStr:
 		if leaf {
@@ -318,7 +340,11 @@ func (g *gen) rawExpr(k kind, depth int, class string) string {
 				return []string{"s1", "s2"}[g.intn("sv", 0, 1)]
 			case c == 3:
 				g.feat("member")
-				return []string{"obj.Name", "obj.Inner.Label", `m1["s"]`, "ss[0]", "obj.Tags[1]"}[g.intn("path", 0, 4)]
+				if g.pct("idxcallee", 25) {
+					g.feat("index_callee")
+					return "(objs[" + g.maybeProbe(fmt.Sprint(g.intn("oi", 0, 1)), kInt, "index", false) + "].Name)"
+				}
+				return []string{"obj.Name", "obj.Inner.Label", `m1["s"]`, "ss[0]", "obj.Tags[1]", "(objs[0].Name)", `(om["x"].Name)`}[g.intn("path", 0, 6)]
 			default:
 				if g.pct("randlit", 25) {
 					return fmt.Sprintf("%q", "w"+fmt.Sprint(g.intn("wn", 0, 9999)))
@@ -326,7 +352,7 @@ func (g *gen) rawExpr(k kind, depth int, class string) string {
 				return strLits[g.intn("slit", 0, len(strLits)-1)]
 			}
 		}
-		switch g.intn("strform", 0, 6) {
+		switch g.intn("strform", 0, 8) {
 		case 0, 1:
 			g.feat("infix_concat")
 			return g.operand(kStr, depth-1, "infix-left:+") + " + " + g.operand(kAny, depth-1, "infix-right:+")
@@ -345,9 +371,21 @@ func (g *gen) rawExpr(k kind, depth int, class string) string {
 				return "obj.Greet(" + g.expr(kStr, depth-1, "method-arg") + ")"
 			}
 			return fmt.Sprintf(`po(%d, {"k": %s, "j": %s})`, s.ID, g.expr(kAny, depth-1, "hash-value"), g.expr(kAny, depth-1, "hash-value"))
-		default:
+		case 6:
 			g.feat("index_access")
 			return "[" + g.expr(kStr, depth-1, "array-element") + ", " + g.expr(kStr, depth-1, "array-element") + "][" + fmt.Sprint(g.intn("ix", 0, 1)) + "]"
+		case 7:
+			// helper that renders a template string through HelperContext.Render
+			g.feat("helper_render")
+			s := g.newSiteIf(pkOpts, "go-helper-call", kStr)
+			id := 0
+			if s != nil {
+				id = s.ID
+			}
+			return fmt.Sprintf("pr(%d, %s)", id, g.expr(kStr, depth-1, "go-helper-arg"))
+		default:
+			g.feat("chained_call")
+			return "(obj.Self().Name)"
 		}
 	case kBool:
 		if leaf {
@@ -885,6 +923,20 @@ func (g *gen) blockHelperPiece(depth int) {
 	}
 	g.feat("block_helper")
 	g.frames = 0
+	if g.pct("blockwith", 35) {
+		// block run with its own child context carrying extra data
+		g.feat("block_helper_blockwith")
+		bw := g.expr(kInt, 1, "hash-value")
+		s := g.newSite(pkBlock, "block-helper-call", kAny)
+		g.tag(g.outTag(), fmt.Sprintf("pbw(%d, {\"bw\": %s}) {", s.ID, bw), "%>")
+		g.nl()
+		sc := g.pushScope()
+		g.scope = append(g.scope, variable{name: "bw", k: kInt})
+		g.pieces(depth-1, 2)
+		g.popScope(sc)
+		g.tag("<%", "}", "%>")
+		return
+	}
 	s := g.newSite(pkBlock, "block-helper-call", kAny)
 	g.tag(g.outTag(), fmt.Sprintf("pb(%d) {", s.ID), "%>")
 	g.nl()
@@ -1007,7 +1059,19 @@ func (g *gen) partialPiece(depth int) {
 // noisePiece: material that moves line numbers but contains no probes.
 func (g *gen) noisePiece() {
 	g.feat("noise")
-	switch g.intn("noise", 0, 5) {
+	switch g.intn("noise", 0, 11) {
+	case 6:
+		g.cur.write("escaped \\<%= not a tag %> text\nnext\n")
+	case 7:
+		g.cur.write("<% let " + g.fresh("ms") + " = \"quote \\\" inside\nand a newline\" %>")
+	case 8:
+		g.cur.write("<%=\n\n  \"split\"  \n%>")
+	case 9:
+		g.cur.write("<%\n  let " + g.fresh("ms") + " = 1\n%>\n")
+	case 10:
+		g.cur.write("<%# one %><%# two\n\n%>\n\t\n")
+	case 11:
+		g.cur.write("<%= [\n1,\n2\n] %>")
 	case 0:
 		g.cur.write("<% let " + g.fresh("ms") + " = \"first\nsecond\n\nfourth\" %>")
 	case 1:
